@@ -349,7 +349,10 @@ impl<T: Send + Sync + 'static> Puppet<T> {
                         "data" => self.emit(ix),
                         "end" => self.end(ix),
                         "err" => self.fail(ix),
-                        "defer" => env.with_inst(ix, |i| i.deferred += 1),
+                        "defer" => {
+                            env.with_inst(ix, |i| i.deferred += 1);
+                            env.event("note", &name, "defer", json!(0));
+                        },
                         _ => {},
                     }
                 }
